@@ -41,11 +41,21 @@ func (c *ATConn) PrepareContext(ctx context.Context, query string) (driver.Stmt,
 			c.txCtx = types.NewTxCtx()
 		}()
 	}
-	return c.Conn.PrepareContext(ctx, query)
+	stmt, err := c.Conn.PrepareContext(ctx, query)
+	if err != nil {
+		return nil, err
+	}
+	return ownedBy(stmt, c), nil
 }
 
 // QueryContext
 func (c *ATConn) QueryContext(ctx context.Context, query string, args []driver.NamedValue) (driver.Rows, error) {
+	return c.queryWith(ctx, query, args, c.Conn.QueryContext)
+}
+
+// queryWith runs a query inside the transaction handling of the connection; do sends it to the database
+func (c *ATConn) queryWith(ctx context.Context, query string, args []driver.NamedValue,
+	do func(ctx context.Context, query string, args []driver.NamedValue) (driver.Rows, error)) (driver.Rows, error) {
 	if c.createOnceTxContext(ctx) {
 		defer func() {
 			c.txCtx = types.NewTxCtx()
@@ -70,7 +80,7 @@ func (c *ATConn) QueryContext(ctx context.Context, query string, args []driver.N
 
 		return executor.ExecWithNamedValue(ctx, execCtx,
 			func(ctx context.Context, query string, args []driver.NamedValue) (types.ExecResult, error) {
-				ret, err := c.Conn.QueryContext(ctx, query, args)
+				ret, err := do(ctx, query, args)
 				if err != nil {
 					return nil, err
 				}
@@ -85,6 +95,12 @@ func (c *ATConn) QueryContext(ctx context.Context, query string, args []driver.N
 
 // ExecContext
 func (c *ATConn) ExecContext(ctx context.Context, query string, args []driver.NamedValue) (driver.Result, error) {
+	return c.execWith(ctx, query, args, c.Conn.ExecContext)
+}
+
+// execWith runs a statement inside the transaction handling of the connection; do sends it to the database
+func (c *ATConn) execWith(ctx context.Context, query string, args []driver.NamedValue,
+	do func(ctx context.Context, query string, args []driver.NamedValue) (driver.Result, error)) (driver.Result, error) {
 	if c.createOnceTxContext(ctx) {
 		defer func() {
 			c.txCtx = types.NewTxCtx()
@@ -109,7 +125,7 @@ func (c *ATConn) ExecContext(ctx context.Context, query string, args []driver.Na
 
 		ret, err := executor.ExecWithNamedValue(ctx, execCtx,
 			func(ctx context.Context, query string, args []driver.NamedValue) (types.ExecResult, error) {
-				ret, err := c.Conn.ExecContext(ctx, query, args)
+				ret, err := do(ctx, query, args)
 				if err != nil {
 					return nil, err
 				}
